@@ -4,6 +4,7 @@ use super::common::*;
 use super::{Property, Tier, Verdict};
 use crate::entropy::Rng;
 use crate::exec::{Op, RunLog, Scenario};
+use crate::krpc::xor;
 use crate::log::{ApiEv, Ev};
 use crate::stubs::{Answer, StubCfg};
 use serde_json::json;
@@ -34,7 +35,11 @@ impl Property for C16 {
         let ih = rng.id20();
         // at most 9 answering stubs, so every stub names every other one and any search that
         // reaches one of them hears of (and, in its end-game, queries) all of them
-        let n_ans = rng.range(1, 9) as usize;
+        // (or 10..16: enough good contacts that the node never re-bootstraps, so nothing but the
+        // first completion can release a queued search; peers then sit on the 8 stubs closest to
+        // the info-hash, which every answer names)
+        let big = rng.chance(1, 4);
+        let n_ans = if big { rng.range(10, 16) } else { rng.range(1, 9) } as usize;
         let n_silent = rng.range(0, 4) as usize;
         let mut peer_no = 0u32;
         for i in 0..n_ans {
@@ -51,6 +56,15 @@ impl Property for C16 {
             }
             sc.world.stubs.push(s);
         }
+        if big {
+            let mut order: Vec<usize> = (0..n_ans).collect();
+            order.sort_by_key(|i| xor(&sc.world.stubs[*i].id, &ih));
+            let far: Vec<usize> = order[8..].to_vec();
+            for i in far {
+                sc.world.stubs[i].peers.clear();
+            }
+            sc.params.insert("big".into(), 1);
+        }
         // in one run of three nobody answers before t_up: the first bootstrap attempt(s) fail and the
         // node sits in its back-off pauses (2 s, 4 s, 8 s, ...) while searches are being issued
         if rng.chance(1, 3) {
@@ -60,7 +74,7 @@ impl Property for C16 {
             }
             sc.params.insert("t_up".into(), t_up as i64);
         }
-        for i in 0..n_silent {
+        for i in 0..(if big { 0 } else { n_silent }) {
             // silent stubs are named by the others and slow the bootstrap down (0.5 s per bucket)
             let mut s = StubCfg::honest(stub_addr(v6, 100 + i), rng.id20());
             s.answer = Answer::Never;
@@ -96,12 +110,23 @@ impl Property for C16 {
             let announce = rng.chance(1, 3);
             sc.at(start + dt, Op::Search { node: 0, ih, announce });
         }
+        // an application polling the node's state while it bootstraps (status display): API calls
+        // land in the very loop turns in which the bootstrap completes
+        if rng.chance(1, 3) {
+            let period = *rng.pick(&[1u64, 1, 2, 5]);
+            let span = sc.param("t_up") as u64 + 6_000 + 20 * sc.net.lat_max_ms;
+            sc.at(start, Op::SampleEvery { node: 0, period_ms: period, count: (span / period).min(4_000) as u32, table: false });
+            sc.params.insert("polling".into(), 1);
+        }
+        // late state samples: tell "never bootstrapped" (not this property) from "search never released"
+        sc.at(100_000, Op::Sample { node: 0, table: false });
+        sc.at(160_000, Op::Sample { node: 0, table: false });
         // control: the same search right after bootstrapped() resolves
         let ctl = sc.after(boot, 0, Op::Search { node: 0, ih, announce: false });
         sc.params.insert("boot_step".into(), boot as i64);
         sc.params.insert("control_step".into(), ctl as i64);
         sc.params.insert("peers".into(), peer_no as i64);
-        sc.end_ms = 400_000;
+        sc.end_ms = 170_000;
         sc
     }
 
@@ -129,6 +154,28 @@ impl Property for C16 {
                     }
                     _ => {}
                 }
+            }
+        }
+        // bootstrap state as reported by get_state() late in the run
+        let mut late_boot: Vec<(u64, bool)> = Vec::new();
+        for e in &run.log {
+            if let Ev::Api { t, ev: ApiEv::Sample { state: Some(st), .. }, .. } = e {
+                if *t >= 100_000 {
+                    late_boot.push((*t, st.1));
+                }
+            }
+        }
+        let settled = late_boot.len() >= 2 && late_boot.iter().all(|(_, b)| *b);
+        if settled {
+            // the node reports itself bootstrapped from 100 s on: whatever was queued must have been
+            // carried out long before the end of the run (a search lasts 1.5 s per node heard of + 3 s)
+            for (step, t0) in &start {
+                if *t0 < 50_000 && !end.contains_key(step) && run.end_ms >= 160_000 {
+                    v.violate("C16", "early_search_never_ends", run.end_ms, format!("search issued at {t0} ms has not ended by {} ms although the node has reported itself bootstrapped since 100000 ms at the latest", run.end_ms));
+                }
+            }
+            if !v.violations.is_empty() {
+                return v;
             }
         }
         let (boot_done, ctl_end) = match (boot_done, end.get(&ctl_step)) {
@@ -171,6 +218,12 @@ impl Property for C16 {
         if boot_done > start.values().min().copied().unwrap_or(0) + 2_000 {
             v.hit("slow_bootstrap");
         }
+        if sc.param("polling") != 0 {
+            v.hit("state_polled_during_bootstrap");
+        }
+        if sc.param("big") != 0 {
+            v.hit("no_rebootstrap_network");
+        }
         if sc.param("t_up") > 2_500 && early > 0 {
             v.hit("early_search_while_bootstrap_attempts_fail");
         }
@@ -179,12 +232,12 @@ impl Property for C16 {
         v
     }
     fn rule(&self) -> &'static str {
-        "static loss-free network of 1..9 answering stubs (each naming all others) holding 0..3 unique peers each plus 0..4 silent stubs; a fresh real node with 1..3 contacts (+ optionally a dead one); in one run of three every contact is silent until a drawn instant (0.5..25 s), so the first bootstrap attempts fail and searches fall into the back-off pauses; 1..4 searches issued 0 ms .. 40 s after start (with/without announce); control = same search issued when bootstrapped() resolves. non-trivial = at least one search issued before bootstrap completion and the control search yields peers; distinct = distinct order digests"
+        "static loss-free network of 1..9 answering stubs (each naming all others) holding 0..3 unique peers each plus 0..4 silent stubs, or (1 run in 4) 10..16 answering stubs so that the node never re-bootstraps, peers on the 8 closest to the info-hash; in a third of the runs an application polls get_state/load_contacts/local_addr every 1..5 ms while the node bootstraps; a fresh real node with 1..3 contacts (+ optionally a dead one); in one run of three every contact is silent until a drawn instant (0.5..25 s), so the first bootstrap attempts fail and searches fall into the back-off pauses; 1..4 searches issued 0 ms .. 40 s after start (with/without announce); control = same search issued when bootstrapped() resolves. non-trivial = at least one search issued before bootstrap completion and the control search yields peers; distinct = distinct order digests"
     }
     fn assumptions(&self) -> Vec<&'static str> {
         vec!["peer sets are compared as sets; the network is static and loss-free, as the property's comparison requires"]
     }
     fn required_reach(&self) -> Vec<&'static str> {
-        vec!["search_before_first_datagram", "several_early_searches", "slow_bootstrap", "search_after_bootstrap", "early_search_while_bootstrap_attempts_fail"]
+        vec!["search_before_first_datagram", "several_early_searches", "slow_bootstrap", "search_after_bootstrap", "early_search_while_bootstrap_attempts_fail", "state_polled_during_bootstrap", "no_rebootstrap_network"]
     }
 }
